@@ -132,4 +132,52 @@ theorem initLoop_frame (c : PanelCfg) (ukids0 : Array Int) :
       exact ⟨I.1.trans F.1, I.2.1.trans F.2.1, I.2.2.1.trans F.2.2.1, I.2.2.2.1.trans F.2.2.2.1, I.2.2.2.2.trans F.2.2.2.2⟩
     · simp
 
+/-- a fold of steps that each append one queue entry -/
+theorem enqueue_fold (g : Sh → (Nat × Nat) → Sh)
+    (hg : ∀ sh x, (g sh x).head = sh.head ∧ (g sh x).tail = sh.tail + 1 ∧ (g sh x).count = sh.count + 1
+      ∧ (g sh x).queue.size = sh.queue.size) (L : List (Nat × Nat)) : ∀ sh : Sh,
+    (L.foldl g sh).head = sh.head ∧ (L.foldl g sh).tail = sh.tail + L.length
+      ∧ (L.foldl g sh).count = sh.count + (L.length : Int) ∧ (L.foldl g sh).queue.size = sh.queue.size := by
+  induction L with
+  | nil => intro sh; simp
+  | cons x xs ih =>
+    intro sh
+    simp only [List.foldl_cons, List.length_cons]
+    have I := ih (g sh x)
+    have G := hg sh x
+    refine ⟨I.1.trans G.1, by omega, by have := I.2.2.1; push_cast; omega, I.2.2.2.trans G.2.2.2⟩
+
+/-- **Clauses 3–5 of `initOk` proved for `ParallelInit` itself** (every etree, relax, panel size, n): the task queue has n slots,
+`head = 0 ≤ tail = number of relaxed supernodes`, and `count = tail − head`. -/
+theorem parallelInit_queue_cursors (c : PanelCfg) :
+    (parallelInit c).queue.size = c.n ∧ (parallelInit c).head = 0
+      ∧ (parallelInit c).tail = (relaxSnode c.n c.relax c.etree).length
+      ∧ (parallelInit c).count = (((parallelInit c).tail : Int) - ((parallelInit c).head : Int)) := by
+  unfold parallelInit
+  simp only []
+  generalize (List.range c.n).foldl _ (Array.replicate (c.n + 1) (0 : Int)) = ukids0
+  have F := initLoop_frame c ukids0 c.n
+    { sh :=
+        { state := Array.replicate (c.n + 1) 0, typ := Array.replicate c.n 0, size := Array.replicate (c.n + 1) 0,
+          ukids := ukids0, fb := Array.replicate (c.n + 1) 0, queue := Array.replicate c.n 0, head := 0, tail := 0,
+          count := 0, tasksRemain := 0, spin := Array.replicate c.n 0, numSplits := 0 },
+      i := 0, rs := relaxSnode c.n c.relax c.etree, doSplit := false }
+  simp only [] at F
+  generalize initLoop c ukids0 c.n _ = a at F ⊢
+  generalize hsh1 : ({ a.sh with size := a.sh.size.setIfInBounds c.n 1, state := a.sh.state.setIfInBounds c.n UNREADY } : Sh) = sh1
+  have h1 : sh1.head = 0 ∧ sh1.tail = 0 ∧ sh1.count = 0 ∧ sh1.queue.size = c.n := by
+    subst hsh1; simp only []; rw [F.1, F.2.1, F.2.2.1, F.2.2.2.1]; simp
+  have key : ∀ g : Sh → (Nat × Nat) → Sh, (∀ sh x, (g sh x).head = sh.head ∧ (g sh x).tail = sh.tail + 1 ∧ (g sh x).count = sh.count + 1
+      ∧ (g sh x).queue.size = sh.queue.size) →
+      ((relaxSnode c.n c.relax c.etree).foldl g sh1).queue.size = c.n ∧ ((relaxSnode c.n c.relax c.etree).foldl g sh1).head = 0
+      ∧ ((relaxSnode c.n c.relax c.etree).foldl g sh1).tail = (relaxSnode c.n c.relax c.etree).length
+      ∧ ((relaxSnode c.n c.relax c.etree).foldl g sh1).count
+          = ((((relaxSnode c.n c.relax c.etree).foldl g sh1).tail : Int) - (((relaxSnode c.n c.relax c.etree).foldl g sh1).head : Int)) := by
+    intro g hg
+    have E := enqueue_fold g hg (relaxSnode c.n c.relax c.etree) sh1
+    rw [h1.1, h1.2.1, h1.2.2.1, h1.2.2.2] at E
+    obtain ⟨e1, e2, e3, e4⟩ := E
+    exact ⟨e4, e1, by rw [e2]; simp, by rw [e3, e2, e1]; simp⟩
+  exact key _ (by intro sh x; obtain ⟨f, s⟩ := x; simp)
+
 end Slu
